@@ -290,15 +290,18 @@ func c14Scenario(server string, nw, nr int, twoHandles bool, alloc bool) explore
 			want string
 		}
 		var reads []rd
-		for hi, h := range handles {
-			for i := 0; i < nw; i++ {
+		// with two handles the requests are interleaved: W(A) W(B) W(A) W(B) ... R(A) R(B) ...
+		for i := 0; i < nw; i++ {
+			for hi, h := range handles {
 				off := 2 * i
 				data := []byte{byte('a' + off + hi), byte('b' + off + hi)}
 				spec.burst = append(spec.burst, mustPkt(&sshFxpWritePacket{ID: id, Handle: h, Offset: uint64(off), Length: 2, Data: data}))
 				copy(want[names[hi]][off:], data)
 				id++
 			}
-			for i := 0; i < nr; i++ {
+		}
+		for i := 0; i < nr; i++ {
+			for _, h := range handles {
 				off := 8 + 2*i
 				spec.burst = append(spec.burst, mustPkt(&sshFxpReadPacket{ID: id, Handle: h, Offset: uint64(off), Len: 2}))
 				reads = append(reads, rd{id, init[off : off+2]})
@@ -418,6 +421,8 @@ func init() {
 				j("rs W=8 2w+1r db2", "instr", "rs", 2, 1, false, 2, 100),
 				j("rs W=2 2w+1r db3", "instr-w2", "rs", 2, 1, false, 3, 100),
 				j("os W=2 2w+1r db2", "instr-w2", "os", 2, 1, false, 2, 100),
+				j("rs W=2 two handles interleaved 2w each db2", "instr-w2", "rs", 2, 0, true, 2, 100),
+				j("os W=2 two handles interleaved 2w+1r each db2", "instr-w2", "os", 2, 1, true, 2, 100),
 			}
 		},
 	})
